@@ -181,9 +181,11 @@ class Report:
         if self.engine_errors:
             for e in self.engine_errors:
                 print("ENGINE-ERROR:", e)
-            if not any(not no_input for _, _, no_input in self.violations):
+            if not self.violations:
                 print(f"check {self.prop}: machinery failure ({len(self.engine_errors)}), nothing is reported")
                 return 3
+            # parts of the machinery failed (typically a harness that could no longer build its inputs on the changed
+            # code); obligations that failed on their own are still reported - the failures above are listed with them
         seen_und = set()
         for d in self.downgraded:
             k = (d.get("function"), tuple(d.get("reason") or ())[:1])
